@@ -18,7 +18,9 @@ from vlib.sim import Sim, api_app
 PROPERTY = 'C16'
 RULE = ('matrix: every /v1/peer/ rule x {GET,HEAD,POST,PUT,DELETE,PATCH,OPTIONS} x {no credentials, wrong user, wrong password, '
         'empty password, right} x {Idle-fresh, Idle-stopped, Connect, OpenSent, OpenConfirm, Established} x {valid, empty, '
-        'malformed} body; sends: generated UPDATE requests (IPv4 + standard attributes, IPv6 unicast, VPNv4) on eBGP / iBGP. '
+        'malformed} body; sends: generated UPDATE requests (IPv4 + standard attributes, IPv6 unicast, VPNv4), route-refresh '
+        'and bin_update requests on eBGP / iBGP sessions in 4- and 2-octet-AS mode, plus the enumerated grid session kind x '
+        'LOCAL_PREF {absent,0,1,100,2^31,2^32-1} x MED x shape for the default-LOCAL_PREF rule. '
         'Non-trivial = request hits a state-changing or sending endpoint or uses wrong-but-well-formed credentials; '
         'distinct by (rule, method, credentials, state, body).')
 ASSUMPTIONS = ['REST calls are atomic between reactor events (Flask test client, no thread pool)',
@@ -53,11 +55,15 @@ def valid_body(rule):
     return None
 
 
-def make_state(name, ibgp=False):
+def make_state(name, ibgp=False, as4=True):
     kw = dict(hold_time=180, idle_hold_time=30)
     if ibgp:
         kw['remote_as'] = 65001
     sim = Sim(**kw)
+    if not as4:
+        # the peer does not advertise the 4-octet-AS capability: the session runs in 2-octet mode
+        ss.establish(sim, upto=name, caps=[rc.cap_mp(1, 1), rc.cap(2), rc.cap(128)], as4=False)
+        return sim
     if name == 'IDLE-fresh':
         return sim
     if name == 'CONNECT':
@@ -166,6 +172,7 @@ def rt_bytes(text):
 def send_request(draw):
     from vlib.props.c06 import as_path, community_in, prefix_list
     ibgp = draw(st.booleans())
+    as4 = draw(st.sampled_from([True, True, False]))
     shape = draw(st.sampled_from(['announce', 'announce', 'withdraw', 'both', 'v6', 'vpn4', 'rr', 'bin']))
     req = {}
     if shape == 'rr':
@@ -173,20 +180,20 @@ def send_request(draw):
                'res': draw(st.sampled_from([0, 0, 1, 255]))}
         if draw(st.booleans()):
             del req['res']
-        return {'ibgp': ibgp, 'shape': shape, 'req': req}
+        return {'ibgp': ibgp, 'as4': as4, 'shape': shape, 'req': req}
     if shape == 'bin':
         n = draw(st.integers(1, 3))
         data = b''.join(ss.marked_update(draw(st.integers(0, 60000)))[0] for _ in range(n))
-        return {'ibgp': ibgp, 'shape': shape, 'req': {'hex': data.hex()}}
+        return {'ibgp': ibgp, 'as4': as4, 'shape': shape, 'req': {'hex': data.hex()}}
     if shape in ('announce', 'both'):
-        a = {'1': draw(st.integers(0, 2)), '2': draw(as_path(True)), '3': draw(vs.ipv4_host)}
+        a = {'1': draw(st.integers(0, 2)), '2': draw(as_path(as4)), '3': draw(vs.ipv4_host)}
         for c in draw(st.sets(st.sampled_from([4, 5, 6, 7, 8, 9, 10, 16, 32]), max_size=5)):
             if c in (4, 5):
-                a[str(c)] = draw(vs.u32)
+                a[str(c)] = draw(st.one_of(st.sampled_from([0, 100]), vs.u32))
             elif c == 6:
                 a['6'] = ''
             elif c == 7:
-                a['7'] = [draw(vs.asn4), draw(vs.ipv4_addr)]
+                a['7'] = [draw(vs.asn4 if as4 else vs.asn2), draw(vs.ipv4_addr)]
             elif c == 8:
                 a['8'] = draw(st.lists(community_in, min_size=1, max_size=4))
             elif c == 9:
@@ -210,12 +217,12 @@ def send_request(draw):
                                                            'nlri': draw(st.lists(st.fixed_dictionaries({
                                                                'prefix': vs.prefix4(), 'rd': vs.rd_text(),
                                                                'label': st.lists(vs.label, min_size=1, max_size=1)}), min_size=1, max_size=3))}}
-    return {'ibgp': ibgp, 'shape': shape, 'req': req}
+    return {'ibgp': ibgp, 'as4': as4, 'shape': shape, 'req': req}
 
 
 def other_send_case(case):
     """route-refresh and bin_update: a success reply means exactly that message is on the wire"""
-    sim = make_state('ESTABLISHED', ibgp=case['ibgp'])
+    sim = make_state('ESTABLISHED', ibgp=case['ibgp'], as4=case.get('as4', True))
     c = ss.live_connectors(sim)[-1]
     mark = sim.mark()
     out = []
@@ -250,7 +257,8 @@ def send_case(case):
     if case['shape'] in ('rr', 'bin'):
         return other_send_case(case)
     ibgp, req = case['ibgp'], case['req']
-    sim = make_state('ESTABLISHED', ibgp=ibgp)
+    as4 = case.get('as4', True)
+    sim = make_state('ESTABLISHED', ibgp=ibgp, as4=as4)
     c = ss.live_connectors(sim)[-1]
     mark = sim.mark()
     code, body = sim.rest('POST', '/v1/peer/%s/send/update' % PEER, json_body=req)
@@ -272,7 +280,7 @@ def send_case(case):
         out.append(('send:frames=%d' % len(frames), 'status true but frames written: %r' % [(cid, t) for cid, t, _ in frames]))
         return out
     try:
-        d = rc.decode_update(frames[0][2], asn4=True)
+        d = rc.decode_update(frames[0][2], asn4=as4)
     except rc.WalkError as e:
         return out + [('send:malformed-on-wire', str(e))]
     exp = expect_attrs(req.get('attr') or {}, ibgp)
@@ -310,7 +318,8 @@ def send_case(case):
 def shards(tier):
     rs = rules()
     out = [{'name': 'matrix-%d' % i, 'kind': 'matrix', 'rules': [list(r) for r in rs[i::8]]} for i in range(8)]
-    out += [{'name': 'sends-%d' % i, 'kind': 'sends', 'examples': 120 if tier == 'quick' else 5000, 'hypothesis': True}
+    out.append({'name': 'send-grid', 'kind': 'sendgrid'})
+    out += [{'name': 'sends-%d' % i, 'kind': 'sends', 'examples': 500 if tier == 'quick' else 12000, 'hypothesis': True}
             for i in range(8)]
     return out
 
@@ -331,10 +340,36 @@ def run_shard(spec, seed, col, tier):
                                 col.fail(sig, case, detail)
         return
 
+    if spec['kind'] == 'sendgrid':
+        # the default-LOCAL_PREF rule, enumerated: session kind x LOCAL_PREF x MED boundary values x shape
+        absent = None
+        for ibgp, as4 in ((False, True), (True, True), (True, False), (False, False)):
+            for lp in (absent, 0, 1, 100, 2 ** 31, 2 ** 32 - 1):
+                for med in (absent, 0, 2 ** 32 - 1):
+                    for shape in ('announce', 'both', 'withdraw'):
+                        req = {}
+                        if shape != 'withdraw':
+                            a = {'1': 0, '2': [[2, [65001, 65002]]], '3': '10.0.0.1'}
+                            if lp is not absent:
+                                a['5'] = lp
+                            if med is not absent:
+                                a['4'] = med
+                            req['attr'] = a
+                            req['nlri'] = ['10.1.0.0/16', '10.2.3.0/24']
+                        if shape != 'announce':
+                            req['withdraw'] = ['10.9.0.0/16']
+                        case = {'ibgp': ibgp, 'as4': as4, 'shape': shape, 'req': req}
+                        res = send_case(case)
+                        case = dict(case, k='send')
+                        col.case(case, True, labels=['send-grid', 'ibgp:%s' % ibgp])
+                        for sig, detail in res:
+                            col.fail(sig, case, detail)
+        return
+
     def body(case):
         res = send_case(case)
         case = dict(case, k='send')
-        col.case(case, True, labels=['send', 'shape:' + case['shape'], 'ibgp:%s' % case['ibgp']])
+        col.case(case, True, labels=['send', 'shape:' + case['shape'], 'ibgp:%s' % case['ibgp'], 'as4:%s' % case.get('as4', True)])
         for sig, detail in res:
             col.fail(sig, case, detail)
     hyp_run(col, send_request(), body, seed, spec['examples'])
